@@ -358,13 +358,13 @@ int drive(int argc, char** argv, const char* prop, Hooks<Case> hk)
             return;
          }
          Case c = *gen;
+         // bounded shrinking effort: past the limit every candidate counts as passing (without being run), so rapidcheck
+         // settles on the smallest failing case found so far
+         if (shrinking && (++shrink_steps_this_round > o.get("shrinklimit", 4000) || now_s() > shrink_deadline)) return;
          const std::string text = hk.to_text(c);
          current.put(text);
          Outcome out = hk.run(c, o);
          if (shrinking) {
-            // bounded shrinking effort: past the limit every candidate counts as passing, so rapidcheck settles on
-            // the smallest failing case found so far
-            if (++shrink_steps_this_round > o.get("shrinklimit", 4000) || now_s() > shrink_deadline) return;
             ++tally.shrink_steps;
             for (auto& f : out.findings)
                if (f.signature == target) {
